@@ -27,8 +27,9 @@ func (e *Eng) execFunc(fn *ssa.Function, args []*Val, bindings []*Val, st *State
 	}
 	fr := &Frame{fn: fn, vals: map[ssa.Value]*Val{}, guard: map[*ssa.BasicBlock]string{}, in: map[*ssa.BasicBlock][]edgeIn{},
 		depth: depth, prefix: prefix, fspec: fspec, loopOrd: map[*ssa.BasicBlock]int{}, descN: map[string]int{}, entryGuard: guard,
-		inheritedNonNil: e.pendingNonNil, autoBounds: map[*ssa.BasicBlock]func(*State, map[*ssa.Phi]*Val, *ssa.BasicBlock, string){}}
+		inheritedNonNil: e.pendingNonNil, autoBounds: map[*ssa.BasicBlock]func(*State, map[*ssa.Phi]*Val, *ssa.BasicBlock, string){}, up: e.pendingUp}
 	e.pendingNonNil = nil
+	e.pendingUp = nil
 	for i, p := range fn.Params {
 		if i < len(args) {
 			fr.vals[p] = args[i]
